@@ -1,5 +1,6 @@
 import TangeloModel.PauliExp
 import TangeloProofs.Lemmas.OpInverse
+import TangeloProofs.CycLaws
 /-!
 # C06 — Pauli-exponential and time-evolution circuits implement exp(−itH)
 
@@ -369,5 +370,27 @@ theorem steps_power (k : Consts R) (ops : List Op) (n : Nat) (ψ : State R) :
 /-! ## non-vacuity -/
 example : ∃ gs, gates [(0, .Z), (2, .Z)] (Ang.piQuarter 1) true false (some [5]) = some gs ∧ gs.length = 3 := ⟨_, rfl, rfl⟩
 example : allZ [(0, .Z), (2, .Z)] = true ∧ (sortNat [0, 2]).Nodup ∧ sortNat [0, 2] ≠ [] := by decide
+
+/-! ## executable instance -/
+
+/-- the extra law e(π/2) = (1+i)/√2 holds for the amplitudes the driver computes -/
+theorem halfPi_exec : HalfPiLaw cycConsts := by
+  unfold HalfPiLaw
+  show Ang.e (Ang.piQuarter 2) = (1 + Cyc.I) * Cyc.rsqrt2
+  rw [Ang.e_unfold]
+  show Cyc.zetaPow 2 * Ang.ptPow _ _ 0 * Ang.ptPow _ _ 0 * Ang.ptPow _ _ 0 * Ang.ptPow _ _ 0 * Ang.ptPow _ _ 0 * Ang.ptPow _ _ 0 = _
+  simp only [Ang.ptPow_zero, mul_one]
+  ext <;> simp [Cyc.zetaPow, Cyc.zetaPowNat, Cyc.I, Cyc.rsqrt2, Cyc.mul] <;> norm_num
+
+/-- X and Y letters of a Pauli word on the executable model -/
+theorem x_letter_exec (θ : Ang) :
+    (baseMatrix cycConsts .H 0).mul ((baseMatrix cycConsts .RZ θ).mul (baseMatrix cycConsts .H 0)) =
+      ⟨cycConsts.cosH θ, cycConsts.misinH θ, cycConsts.misinH θ, cycConsts.cosH θ⟩ :=
+  x_letter cycConsts cycConsts_laws θ
+
+theorem y_letter_exec (θ : Ang) :
+    (baseMatrix cycConsts .RX (Ang.piQuarter (-2))).mul ((baseMatrix cycConsts .RZ θ).mul (baseMatrix cycConsts .RX (Ang.piQuarter 2))) =
+      ⟨cycConsts.cosH θ, -(cycConsts.i * cycConsts.misinH θ), cycConsts.i * cycConsts.misinH θ, cycConsts.cosH θ⟩ :=
+  y_letter cycConsts cycConsts_laws halfPi_exec θ
 
 end Tangelo.C06
